@@ -11,13 +11,28 @@ Coin == RandomElement({TRUE, FALSE})
 PickOne(good, all) == {IF good # {} /\ Coin THEN RandomElement(good) ELSE RandomElement(all)}
 Entry == IF phase' = "idle" /\ last'.op # "init" THEN last' @@ [com |-> ObsOf(com')] ELSE last'
 SimInit == Init /\ hist = << >>
+\* three calls are drawn per step and TLC takes one of their successors (a disabled draw contributes none)
 SimStep ==
-  \E a \in One(Accts), n \in One(Names), s \in One(Srcs) :
+  \E a \in One(Accts), n \in One(Names), s \in One(Srcs), k1 \in One(1..14), k2 \in One(1..14), k3 \in One(1..14) :
   \E u \in PickOne({x \in Srcs : UpdateBad(a, n, x) = {}}, Srcs),
      v \in PickOne({x \in Srcs : Valid(x)}, Srcs) :
-     \/ Begin \/ Commit \/ Commit \/ Abort
-     \/ Add(a, n, v) \/ Add(a, n, s) \/ Update(a, n, u) \/ TryUpdate(a, n, u) \/ TryUpdate(a, n, s)
-     \/ Remove(a, n) \/ Get(a, n) \/ Borrow(a, n) \/ NamesOf(a)
+  \E k \in {k1, k2, k3} :
+     CASE phase = "idle" -> Begin
+       [] nops >= MaxOps -> IF k <= 11 THEN Commit ELSE Abort
+       [] k = 4 /\ nops = 0 -> Commit
+       [] k = 1 -> Commit
+       [] k \in {2, 3} -> Commit
+       [] k = 4 -> Abort
+       [] k = 5 -> Add(a, n, v)
+       [] k = 6 -> Add(a, n, s)
+       [] k = 7 -> Update(a, n, u)
+       [] k = 8 -> TryUpdate(a, n, u)
+       [] k = 9 -> TryUpdate(a, n, s)
+       [] k = 10 -> Remove(a, n)
+       [] k = 11 -> Get(a, n)
+       [] k = 12 -> Borrow(a, n)
+       [] k = 13 -> NamesOf(a)
+       [] OTHER -> Get(a, n)
 \* a history ends with the running transaction committed and one stuttering "end" entry, so that the
 \* printing invariant fires once per history
 SimNext == IF Len(hist) < SimDepth - 2 THEN SimStep /\ hist' = Append(hist, Entry)
